@@ -27,7 +27,7 @@ import tempfile
 
 VERIF = os.path.dirname(os.path.dirname(os.path.abspath(__file__)))
 REPO = "/repo"
-ENV = dict(os.environ, GOFLAGS="-mod=mod", GOPROXY="off", GOSUMDB="off", GOTOOLCHAIN="local")
+ENV = dict(os.environ, GOFLAGS="-mod=mod", GOPROXY="off", GOSUMDB="off", GOTOOLCHAIN="local", VERIF_REPLAY_DIR="/verif/replays/.automut")
 
 FILEMAP = {
     "bitmap/rank.go": ["C01"], "bitmap/select.go": ["C02"], "bitmap/next.go": ["C13"],
